@@ -127,6 +127,9 @@ def random_episode(item):
     for l in rgl:
         if rng.random() < 0.5:
             B.set_grad(l, [rng.randint(-4, 4) for _ in range(prog[l - 1]["size"])])
+    for l in nograd:                                        # a frozen parameter may carry a stale .grad
+        if rng.random() < 0.5:
+            B.set_grad(l, [rng.randint(-4, 4) for _ in range(prog[l - 1]["size"])])
     leaves = B.leaves()
     s0 = snapshot(B, leaves)
     exc = None
